@@ -14,17 +14,17 @@ import (
 func init() {
 	register(&PropDef{
 		ID: "C14", Level: "exploration", Quick: 10000, Thorough: 500000, QuickCap: 100,
-		Rule:   "each run = one engine (disk: clean restarts and kill-images between requests), 1-40 requests over 3 parents (one a string prefix of another) x 3 table ids mixing CreateTable/DeleteTable/GetTable/ListTables, ModifyColumnFamilies with 1-3 modifications (create/update/drop, failing at position k, drop then re-create), DropRowRange (prefix equal to a key, ending in 0xff, matching nothing; all rows), data requests and bulk loads of 20-150 rows inserted once in key order (a third of them holding two families, so that a family drop rewrites some rows and removes others); after every request the touched rows, and at a drawn frequency every table's schema and rows, are compared with the registry model; distinct = hash of (engine, op shapes); non-trivial = at least 2 requests. A quarter of the runs are concurrent: 2-3 client tasks x 1-4 requests (create, delete, get, list, add/drop a family, mutate, read, drop a prefix, drop all rows) on ONE table name under the seeded scheduler, the history checked with porcupine against a registry model (AlreadyExists / NotFound / fresh table after re-creation / purged family) while an untouched table must stay listed and intact",
+		Rule:   "each run = one engine (disk: clean restarts and kill-images between requests), 1-40 requests over 3 parents (one a string prefix of another) x 4 table ids (one is another id plus a dot and a suffix) mixing CreateTable/DeleteTable/GetTable/ListTables, ModifyColumnFamilies with 1-3 modifications (create/update/drop, failing at position k, drop then re-create), DropRowRange (prefix equal to a key, ending in 0xff, matching nothing; all rows), data requests and bulk loads of 20-150 rows inserted once in key order (a third of them holding two families, so that a family drop rewrites some rows and removes others); one run per engine and batch administers a table of 2100-3000 rows (prefix drops of 1000 rows, family drop, clear); after every request the touched rows, and at a drawn frequency every table's schema and rows, are compared with the registry model; distinct = hash of (engine, op shapes); non-trivial = at least 2 requests. A quarter of the runs are concurrent: 2-3 client tasks x 1-4 requests (create, delete, get, list, add/drop a family, mutate, read, drop a prefix, drop all rows) on ONE table name under the seeded scheduler, the history checked with porcupine against a registry model (AlreadyExists / NotFound / fresh table after re-creation / purged family) while an untouched table must stay listed and intact",
 		Real:   []string{"bttest admin handlers (CreateTable, DeleteTable, GetTable, ListTables, ModifyColumnFamilies, DropRowRange)", "data handlers", "all three engines; start-up recovery on disk restarts"},
 		Stub:   []string{"gRPC transport (direct calls)", "process kill = directory image between requests"},
 		Assume: []string{"NotFound / AlreadyExists are required where the statement names them, any error otherwise", "the order of ListTables is unspecified (sorted before comparing)", "an empty row-key prefix is not sent (unspecified)"},
 		Run:    runC14,
 	})
-	expectedProbes["C14"] = []string{"c14.modify_fail_at_k", "c14.drop_family_with_data", "c14.recreate_table", "c14.drop_prefix_hit", "c14.deleted_table_request", "restart", "c14.concurrent_creates", "c14.overlapping_admin_ops", "c14.porcupine_ok", "c14.bulk_load"}
+	expectedProbes["C14"] = []string{"c14.modify_fail_at_k", "c14.drop_family_with_data", "c14.recreate_table", "c14.drop_prefix_hit", "c14.deleted_table_request", "restart", "c14.concurrent_creates", "c14.overlapping_admin_ops", "c14.porcupine_ok", "c14.bulk_load", "c14.thousands_of_rows"}
 }
 
 var c14Parents = []string{"projects/p/instances/i1", "projects/p/instances/i2", "projects/p/instances/i10"} // i1 is a string prefix of i10
-var c14IDs = []string{"t", "t2", "u"}
+var c14IDs = []string{"t", "t2", "u", "t.v2"}                                                               // "t.v2": the id of another table plus a dot and a suffix (file names on disk are derived from ids)
 var c14Prefixes = []string{"a", "a\x00", "ab", "a\xff", "\xff", "zz", "b", "\x00", "a\x00\x00"}
 var c14Fams = []string{"f1", "f2", "g"}
 
@@ -59,7 +59,7 @@ func makeC14GenMix(r *Run, mix int) func(d *draws, m *btModel, i int) btOp {
 			return names[d.n(len(names))]
 		}
 		d.n(1)
-		return c14Parents[d.n(3)] + "/tables/" + c14IDs[d.n(3)]
+		return c14Parents[d.n(3)] + "/tables/" + c14IDs[d.n(4)]
 	}
 	return func(d *draws, m *btModel, i int) btOp {
 		kind := d.w(weights...)
@@ -76,7 +76,7 @@ func makeC14GenMix(r *Run, mix int) func(d *draws, m *btModel, i int) btOp {
 					fams[c14Fams[k]] = g
 				}
 			}
-			p, id := c14Parents[d.w(3, 1, 2)], c14IDs[d.w(3, 2, 1)]
+			p, id := c14Parents[d.w(3, 1, 2)], c14IDs[d.w(3, 2, 1, 1)]
 			if deleted[p+"/tables/"+id] {
 				r.Probe("c14.recreate_table")
 			}
@@ -166,6 +166,35 @@ func runC14(r *Run) {
 	engine := pickEngine(r, cfg)
 	nOps := 1 + cfg.Intn(40)
 	clk := NewClock(1_700_000_000_000_000, 1_700_000_000_000_000_000)
+	if (r.Index >= 12 && r.Index < 15) || (r.Tier == "thorough" && r.Index%4000 < 3) {
+		// one run per engine and batch: administration of a table holding thousands of rows
+		// (more than any internal batch size), state compared after every request
+		engine = []string{engBtree, engLdbMem, engLdbDisk}[r.Index%3]
+		const tbl = "projects/p/instances/i1/tables/t"
+		script := []btOp{{Kind: "CreateTable", Parent: "projects/p/instances/i1", TableID: "t", Fams: map[string]*btapb.GcRule{"f1": nil, "f2": nil}}}
+		nRows := 2100 + cfg.Intn(900)
+		for from := 0; from < nRows; from += 450 {
+			op := btOp{Kind: "MutateRows", Table: tbl}
+			for e := from; e < from+450 && e < nRows; e++ {
+				muts := mutList{setCell("f1", "q", 1000, "b")}
+				if e%3 == 0 {
+					muts = append(muts, setCell("f2", "q", 2000, "c"))
+				}
+				op.Entries = append(op.Entries, entryIn{Key: fmt.Sprintf("b%04d", e), Muts: muts})
+			}
+			script = append(script, op)
+		}
+		drop := func(f string) btOp {
+			return btOp{Kind: "Modify", Table: tbl, Mods: []*btapb.ModifyColumnFamiliesRequest_Modification{{Id: f, Mod: &btapb.ModifyColumnFamiliesRequest_Modification_Drop{Drop: true}}}}
+		}
+		script = append(script, btOp{Kind: "DropPrefix", Table: tbl, Prefix: "b1"}, btOp{Kind: "ReadAll", Table: tbl}, drop("f1"), btOp{Kind: "ReadAll", Table: tbl},
+			btOp{Kind: "DropPrefix", Table: tbl, Prefix: "b0"}, btOp{Kind: "ReadAll", Table: tbl}, btOp{Kind: "DropAll", Table: tbl}, btOp{Kind: "ReadAll", Table: tbl})
+		r.Probe("c14.thousands_of_rows")
+		res := runBTSeq(r, seqSpec{Engine: engine, NOps: len(script), FullEvery: 1, Restarts: true,
+			Gen: func(d *draws, m *btModel, i int) btOp { return script[i] }}, clk)
+		r.Sample = map[string]interface{}{"mode": "large-table", "engine": engine, "rows": nRows, "requests": len(res.Shapes)}
+		return
+	}
 	spec := seqSpec{
 		Engine: engine, NOps: nOps, FullEvery: []int{1, 4, 9}[cfg.Intn(3)], Restarts: true,
 		Gen: makeC14Gen(r),
